@@ -1374,6 +1374,13 @@ func (r *Reader) processParagraph(p paragraphXML) parsedParagraph {
 
 // extractRunText extracts text from a run element.
 func (r *Reader) extractRunText(run runXML) string {
+	// Runs decoded from XML carry their content in document order.
+	if run.pieces != nil {
+		return strings.Join(run.pieces, "")
+	}
+
+	// Fallback for runs that were not produced by the decoder: assemble by
+	// element type (the relative order of different kinds is unknown).
 	var parts []string
 
 	for _, t := range run.Text {
